@@ -718,3 +718,48 @@ Proof.
   pose proof (strict (curs s) ups (is_ok s) e 0 (npicks ops) Hk ND Hin H0 Hw') as S.
   cbn [Nat.add skipn] in S. exact S.
 Qed.
+
+(* ------------------------------------------------------------------------- *)
+(* request level: one cursor step per FORWARDED request                        *)
+(* ------------------------------------------------------------------------- *)
+
+Definition qres_code (x : qres) : Z := match x with QRefused => -3 | QNone => -2 | QOut p => pres_code p end.
+
+Fixpoint nfwd (zero : bool) (ops : list qop) : nat :=
+  match ops with
+  | [] => O
+  | QLimit b :: r => nfwd b r
+  | QReq :: r => if zero then nfwd zero r else S (nfwd false r)
+  end.
+
+Lemma forwarded_pops ups ok : forall ops s,
+  forwarded (qrun ups ok s ops) = snd (pops (qcur s) (repeat ups (nfwd (qzero s) ops)) ok).
+Proof.
+  induction ops as [|o r IH]; intros s; [reflexivity|].
+  destruct o as [|b]; cbn [qrun qstep nfwd].
+  - destruct (qzero s) eqn:Z.
+    + cbn [forwarded]. rewrite IH, Z. reflexivity.
+    + destruct (pop (qcur s) ups ok) as [c p] eqn:E. cbn [forwarded repeat pops]. rewrite E.
+      rewrite IH. cbn [qcur qzero].
+      destruct (pops c (repeat ups (nfwd false r)) ok) as [c2 l]. reflexivity.
+  - cbn [forwarded]. rewrite IH. reflexivity.
+Qed.
+
+(* the traffic of a policy: whatever mix of forwarded and refused (429) requests and flow-control Syncs,
+   the endpoints that received the forwarded requests are the Pop sequence of the policy's ready list, so
+   each of the k ready endpoints receives floor(F/k) or ceil(F/k) of the F forwarded requests *)
+Theorem request_level_even ups ok s ops e :
+  let rd := filter ok ups in
+  let k := Z.of_nat (List.length rd) in
+  let F := Z.of_nat (nfwd (qzero s) ops) in
+  2 <= k -> NoDup rd -> In e rd ->
+  0 <= get (qcur s) rd -> get (qcur s) rd + F < two64 ->
+  forwarded (qrun ups ok s ops) = snd (pops (qcur s) (repeat ups (nfwd (qzero s) ops)) ok) /\
+  F / k <= pcount e (forwarded (qrun ups ok s ops)) <= ceil_div F k.
+Proof.
+  intros rd k F Hk ND Hin H0 Hw. split; [apply forwarded_pops|].
+  rewrite forwarded_pops.
+  assert (Hw' : get (qcur s) rd + Z.of_nat 0 + Z.of_nat (nfwd (qzero s) ops) < two64) by (unfold F in Hw; lia).
+  pose proof (strict (qcur s) ups ok e 0 (nfwd (qzero s) ops) Hk ND Hin H0 Hw') as S.
+  cbn [Nat.add skipn] in S. exact S.
+Qed.
